@@ -93,9 +93,8 @@ func payload(r *Rng, n int) []byte {
 
 func c11(args []string) int {
 	run := NewRun("C11", args)
-	r := run.R
 	log.DefaultLogger.SetLogLevel(log.FATAL)
-	run.Sum.Rule = "codec: head values and buffer lengths over the boundaries 0,1,7,8,9,255,256,65535,65536,2^31,2^32-1 (heads) / up to 1 MiB (buffers), random and patterned contents, extra bytes following on the socket; non-trivial = non-empty data or tls; distinct by (lengths, first bytes). listener: histories of 3-6 operations from {Start, Start(restart), Shutdown, Shutdown while Upgrading, Close} on a real TCP listener, a connect probe after every step; non-trivial = history contains a Shutdown; distinct by history. drain: in-process MOSN, bolt request whose upstream delay sets the phase, GracefulStopListener at offsets sweeping receiving / waiting-for-upstream / reply phases; distinct by (phase durations, offset)."
+	run.Sum.Rule = "codec: head values and buffer lengths over the boundaries 0,1,7,8,9,255,256,65535,65536,2^31,2^32-1 (heads) / 0,1,2^16-1,2^16,2^16+1,2^20,2^20+1,2^24,2^31-1,2^31,2^32-1 in BOTH head fields of the read path and the write path (second field = connection id); buffers up to 1 MiB+1 (quick) / 3 MiB (thorough), random and patterned contents, extra bytes following on the socket; non-trivial = non-empty data or tls; distinct by (lengths, first bytes). listener: histories of 3-6 operations from {Start, Start(restart), Shutdown, Shutdown while Upgrading, Close} on a real TCP listener, a connect probe after every step; non-trivial = history contains a Shutdown; distinct by history. drain: in-process MOSN, bolt request whose upstream delay sets the phase, GracefulStopListener at offsets sweeping receiving / waiting-for-upstream / reply phases; distinct by (phase durations, offset)."
 
 	dir, err := os.MkdirTemp("", "vh-c11-")
 	if err != nil {
@@ -104,134 +103,7 @@ func c11(args []string) int {
 	defer os.RemoveAll(dir)
 
 	// ---------------- part 1: codec ----------------
-	a, b, closePair := unixPair(dir)
-	heads := run.NewShard(c11Header, "head_case", "head_mismatches")
-	bounds := []uint64{0, 1, 7, 8, 9, 255, 256, 257, 65535, 65536, 1 << 24, 1<<31 - 1, 1 << 31, 1<<32 - 1}
-	nh := run.N(60, 600)
-	for i := 0; i < nh; i++ {
-		pick := func() uint64 {
-			if r.Pct(60) {
-				return bounds[r.Intn(len(bounds))]
-			}
-			return r.U64() & 0xffffffff
-		}
-		s1, s2 := pick(), pick()
-		built := network.VerifTransferBuildHead(uint32(s1), uint32(s2))
-		if err := network.VerifTransferSendHead(a, uint32(s1), uint32(s2)); err != nil {
-			panic(err)
-		}
-		p1, p2, err := network.VerifTransferRecvHead(b)
-		if err != nil {
-			panic(err)
-		}
-		run.Count(fmt.Sprintf("head|%d|%d", s1, s2), s1 != 0 || s2 != 0, "codec-head")
-		rep := map[string]interface{}{"part": "head", "s1": s1, "s2": s2, "built": Hex(built), "parsed": []int{p1, p2}}
-		if uint64(p1) != s1 || uint64(p2) != s2 {
-			run.Fail("transfer-codec:head-roundtrip-differs", fmt.Sprintf("head (%d,%d) came back as (%d,%d)", s1, s2, p1, p2), rep)
-		}
-		heads.Add(fmt.Sprintf("(%s, %s, %s, %s, %s)", CoqN(s1), CoqN(s2), CoqBytes(built), CoqN(uint64(p1)), CoqN(uint64(p2))), rep)
-	}
-	heads.Close()
-
-	rm := run.NewShard(c11Header, "rmsg_case", "rmsg_mismatches")
-	dataLens := []int{0, 1, 7, 8, 9, 255, 256, 257, 1023, 1024, 4095, 4096, 65535, 65536, 70000}
-	if run.Thorough() {
-		dataLens = append(dataLens, 262144, 1<<20-1, 1<<20)
-	}
-	tlsLens := []int{0, 0, 1, 8, 100, 700}
-	nm := run.N(40, 300)
-	for i := 0; i < nm; i++ {
-		dl := dataLens[i%len(dataLens)]
-		if i >= len(dataLens) && r.Pct(50) {
-			dl = r.Intn(3000)
-		}
-		tl := tlsLens[r.Intn(len(tlsLens))]
-		data, tls, extra := payload(r, dl), payload(r, tl), r.Bytes(r.Intn(6))
-		// wire image: the same send captured raw
-		send := func() {
-			buf := buffer.GetIoBuffer(dl + tl)
-			buf.Write(data)
-			buf.Write(tls)
-			if err := network.VerifTransferReadSend(a, buf, dl, tl); err != nil {
-				panic(err)
-			}
-		}
-		var wire []byte
-		var wg sync.WaitGroup
-		wg.Add(1)
-		go func() { defer wg.Done(); wire, _ = readN(b, 8+dl+tl) }()
-		send()
-		wg.Wait()
-		// the real receiver, followed by extra bytes that must stay on the socket
-		var d2, t2, rest []byte
-		var rerr error
-		wg.Add(1)
-		go func() {
-			defer wg.Done()
-			d2, t2, rerr = network.VerifTransferReadRecv(b)
-			rest, _ = readN(b, len(extra))
-		}()
-		send()
-		a.Write(extra)
-		wg.Wait()
-		if rerr != nil {
-			panic(rerr)
-		}
-		run.Count(fmt.Sprintf("rmsg|%d|%d|%x", dl, tl, append(append([]byte{}, data[:min(4, dl)]...), tls[:min(4, tl)]...)), dl+tl > 0, "codec-read-msg", fmt.Sprintf("codec-read-len<=%d", bucket(dl)))
-		rep := map[string]interface{}{"part": "read-msg", "data_len": dl, "tls_len": tl, "extra": Hex(extra), "data_head": Hex(data[:min(16, dl)])}
-		if string(d2) != string(data) || string(t2) != string(tls) || string(rest) != string(extra) {
-			run.Fail("transfer-codec:read-message-roundtrip-differs", fmt.Sprintf("data %d B / tls %d B came back as %d B / %d B (contents differ or following bytes consumed)", dl, tl, len(d2), len(t2)), rep)
-		}
-		rm.Add(fmt.Sprintf("(%s, %s, %s, %s, %s, %s)", CoqBytes(data), CoqBytes(tls), CoqBytes(wire), CoqBytes(extra), CoqBytes(d2), CoqBytes(t2)), rep)
-		if i < 3 {
-			run.Sample(rep)
-		}
-	}
-	rm.Close()
-
-	wm := run.NewShard(c11Header, "wmsg_case", "wmsg_mismatches")
-	ids := []uint64{1, 2, 255, 256, 65536, 1<<32 - 1, 1 << 32, 1<<32 + 5, 1 << 40}
-	for i := 0; i < run.N(30, 200); i++ {
-		id := ids[r.Intn(len(ids))]
-		if r.Pct(40) {
-			id = uint64(1 + r.Intn(1<<20))
-		}
-		dl := dataLens[r.Intn(len(dataLens))]
-		if r.Pct(50) {
-			dl = r.Intn(2000)
-		}
-		data := payload(r, dl)
-		var wire []byte
-		var wg sync.WaitGroup
-		wg.Add(1)
-		go func() { defer wg.Done(); wire, _ = readN(b, 8+dl) }()
-		if err := network.VerifTransferWriteSend(a, int(id), buffer.NewIoBufferBytes(append([]byte{}, data...))); err != nil {
-			panic(err)
-		}
-		wg.Wait()
-		var id2 int
-		var d2 []byte
-		wg.Add(1)
-		go func() { defer wg.Done(); id2, d2, _ = network.VerifTransferWriteRecv(b) }()
-		if err := network.VerifTransferWriteSend(a, int(id), buffer.NewIoBufferBytes(append([]byte{}, data...))); err != nil {
-			panic(err)
-		}
-		wg.Wait()
-		// the id message
-		network.VerifTransferSendID(a, id)
-		id3 := network.VerifTransferRecvID(b)
-		run.Count(fmt.Sprintf("wmsg|%d|%d", id, dl), true, "codec-write-msg")
-		rep := map[string]interface{}{"part": "write-msg", "id": id, "data_len": dl, "id_back": id2, "id_msg_back": id3}
-		if string(d2) != string(data) || (id < 1<<32 && (uint64(id2) != id || id3 != id)) {
-			run.Fail("transfer-codec:write-message-roundtrip-differs", fmt.Sprintf("id %d / %d B came back as id %d (id message %d) / %d B", id, dl, id2, id3, len(d2)), rep)
-		}
-		if uint64(id2) != id3 {
-			run.Fail("transfer-codec:id-encodings-disagree", "the id in the write head and the id message decode differently", rep)
-		}
-		wm.Add(fmt.Sprintf("(%s, %s, %s, %s, %s)", CoqN(id), CoqBytes(data), CoqBytes(wire), CoqN(uint64(id2)), CoqBytes(d2)), rep)
-	}
-	wm.Close()
-	closePair()
+	c11Codec(run, dir)
 
 	// ---------------- part 2: listener ----------------
 	if rc := c11Listener(run); rc != 0 {
@@ -440,4 +312,251 @@ func c11Listener(run *Run) int {
 	}
 	sh.Close()
 	return 0
+}
+
+// ---------------------------------------------------------------------------------------------
+// part 1: the transfer codec.  Every call into the real codec is guarded: an error or a panic of the codec on a
+// well-formed message is a property failure (run.Fail with the header values / lengths as replay), never a crash of the
+// harness; after a failure the socket pair is replaced because unread bytes would desynchronise the following cases.
+
+type codecPair struct {
+	dir   string
+	a, b  *net.UnixConn
+	close func()
+}
+
+func (p *codecPair) reset() {
+	if p.close != nil {
+		p.close()
+	}
+	p.a, p.b, p.close = unixPair(p.dir)
+}
+
+// guard runs f and turns a panic into an error.
+func guard(f func() error) (err error) {
+	defer func() {
+		if r := recover(); r != nil {
+			err = fmt.Errorf("panic: %v", r)
+		}
+	}()
+	return f()
+}
+
+var fullRange = []uint64{0, 1, 7, 8, 9, 255, 256, 257, 1<<16 - 1, 1 << 16, 1<<16 + 1, 1<<20 - 1, 1 << 20, 1<<20 + 1, 1 << 24, 1<<31 - 1, 1 << 31, 1<<32 - 1}
+
+func c11Codec(run *Run, dir string) {
+	r := run.R
+	p := &codecPair{dir: dir}
+	p.reset()
+	defer func() { p.close() }()
+
+	// ---- heads: both fields over the full uint32 range (read path: data length, TLS length; write path: data length, connection id)
+	heads := run.NewShard(c11Header, "head_case", "head_mismatches")
+	type hv struct{ s1, s2 uint64 }
+	var hvs []hv
+	for _, x := range fullRange { // every boundary value in each field, the other field small and large
+		hvs = append(hvs, hv{x, 0}, hv{0, x}, hv{x, x}, hv{5, x}, hv{x, 5})
+	}
+	for i := 0; i < run.N(40, 600); i++ {
+		pick := func() uint64 {
+			if r.Pct(50) {
+				return fullRange[r.Intn(len(fullRange))]
+			}
+			return r.U64() & 0xffffffff
+		}
+		hvs = append(hvs, hv{pick(), pick()})
+	}
+	for _, h := range hvs {
+		s1, s2 := h.s1, h.s2
+		var built []byte
+		var p1, p2 int
+		err := guard(func() error {
+			built = network.VerifTransferBuildHead(uint32(s1), uint32(s2))
+			if err := network.VerifTransferSendHead(p.a, uint32(s1), uint32(s2)); err != nil {
+				return fmt.Errorf("send: %v", err)
+			}
+			var err error
+			p1, p2, err = network.VerifTransferRecvHead(p.b)
+			return err
+		})
+		run.Count(fmt.Sprintf("head|%d|%d", s1, s2), s1 != 0 || s2 != 0, "codec-head")
+		rep := map[string]interface{}{"part": "head", "field1": s1, "field2": s2, "built": Hex(built), "parsed": []int{p1, p2}, "error": fmt.Sprint(err)}
+		switch {
+		case err != nil:
+			run.Fail("transfer:head-rejected", fmt.Sprintf("the transfer head (%d, %d) - a data length with a TLS length (read path) or a connection id (write path) - was refused by the real receiver: %v", s1, s2, err), rep)
+			p.reset()
+		case uint64(p1) != s1 || uint64(p2) != s2:
+			run.Fail("transfer:head-roundtrip-differs", fmt.Sprintf("head (%d,%d) came back as (%d,%d)", s1, s2, p1, p2), rep)
+		}
+		heads.Add(fmt.Sprintf("(%s, %s, %s, %s, %s)", CoqN(s1), CoqN(s2), CoqBytes(built), CoqN(uint64(p1)), CoqN(uint64(p2))), rep)
+	}
+	heads.Close()
+
+	// ---- read messages
+	rm := run.NewShard(c11Header, "rmsg_case", "rmsg_mismatches")
+	dataLens := []int{0, 1, 7, 8, 9, 255, 256, 257, 1023, 1024, 4095, 4096, 65535, 65536, 65537, 70000, 1<<20 + 1}
+	if run.Thorough() {
+		dataLens = append(dataLens, 262144, 1<<20-1, 1<<20, 2<<20, 3<<20+7)
+	}
+	tlsLens := []int{0, 0, 1, 8, 100, 700}
+	nm := run.N(40, 300)
+	for i := 0; i < nm; i++ {
+		dl := dataLens[i%len(dataLens)]
+		if i >= len(dataLens) && r.Pct(50) {
+			dl = r.Intn(3000)
+		}
+		tl := tlsLens[r.Intn(len(tlsLens))]
+		data, tls, extra := payload(r, dl), payload(r, tl), r.Bytes(r.Intn(6))
+		send := func() error {
+			return guard(func() error {
+				buf := buffer.GetIoBuffer(dl + tl)
+				buf.Write(data)
+				buf.Write(tls)
+				return network.VerifTransferReadSend(p.a, buf, dl, tl)
+			})
+		}
+		// wire image: the same send captured raw
+		var wire []byte
+		var wg sync.WaitGroup
+		wg.Add(1)
+		go func(b *net.UnixConn) { defer wg.Done(); wire, _ = readN(b, 8+dl+tl) }(p.b)
+		serr := send()
+		wg.Wait()
+		// the real receiver, followed by extra bytes that must stay on the socket
+		var d2, t2, rest []byte
+		var rerr error
+		if serr == nil {
+			wg.Add(1)
+			go func(b *net.UnixConn) {
+				defer wg.Done()
+				rerr = guard(func() error {
+					var err error
+					d2, t2, err = network.VerifTransferReadRecv(b)
+					return err
+				})
+				if rerr != nil {
+					b.Close() // unblock the sender: nobody will read the rest
+					return
+				}
+				rest, _ = readN(b, len(extra))
+			}(p.b)
+			serr2 := send()
+			p.a.Write(extra)
+			wg.Wait()
+			if rerr == nil && serr2 != nil {
+				serr = serr2
+			}
+		}
+		run.Count(fmt.Sprintf("rmsg|%d|%d|%x", dl, tl, append(append([]byte{}, data[:min(4, dl)]...), tls[:min(4, tl)]...)), dl+tl > 0, "codec-read-msg", fmt.Sprintf("codec-read-len<=%d", bucket(dl)))
+		rep := map[string]interface{}{"part": "read-msg", "data_len": dl, "tls_len": tl, "extra": Hex(extra), "data_head": Hex(data[:min(16, dl)]), "send_error": fmt.Sprint(serr), "recv_error": fmt.Sprint(rerr)}
+		switch {
+		case serr != nil:
+			run.Fail("transfer:read-message-send-failed", fmt.Sprintf("sending a hand-over message with %d B of buffered data and %d B of TLS state failed: %v", dl, tl, serr), rep)
+			p.reset()
+		case rerr != nil:
+			run.Fail("transfer:read-message-rejected", fmt.Sprintf("hand-over of a connection with %d B of buffered read data and %d B of TLS state was refused by the real receiver: %v", dl, tl, rerr), rep)
+			p.reset()
+		case string(d2) != string(data) || string(t2) != string(tls) || string(rest) != string(extra):
+			run.Fail("transfer:read-message-roundtrip-differs", fmt.Sprintf("data %d B / tls %d B came back as %d B / %d B (contents differ or following bytes consumed)", dl, tl, len(d2), len(t2)), rep)
+			p.reset()
+		}
+		rm.Add(fmt.Sprintf("(%s, %s, %s, %s, %s, %s)", CoqBytes(data), CoqBytes(tls), CoqBytes(wire), CoqBytes(extra), CoqBytes(d2), CoqBytes(t2)), rep)
+		if i < 3 {
+			run.Sample(rep)
+		}
+	}
+	rm.Close()
+
+	// ---- write messages: the second head field is the CONNECTION ID of the new process, over the full uint32 range
+	wm := run.NewShard(c11Header, "wmsg_case", "wmsg_mismatches")
+	type wv struct {
+		id uint64
+		dl int
+	}
+	var wvs []wv
+	for _, x := range fullRange {
+		if x != 0 { // 0 is transferErr
+			wvs = append(wvs, wv{x, 1 + r.Intn(300)})
+		}
+	}
+	wvs = append(wvs, wv{1 << 32, 10}, wv{1<<32 + 5, 10}, wv{1 << 40, 0}, wv{3, 1<<20 + 1}, wv{1<<20 + 2, 1 << 20})
+	if run.Thorough() {
+		wvs = append(wvs, wv{9, 2 << 20}, wv{1<<31 + 1, 3<<20 + 7})
+	}
+	for i := 0; i < run.N(20, 200); i++ {
+		dl := dataLens[r.Intn(len(dataLens)-1)]
+		if r.Pct(50) {
+			dl = r.Intn(2000)
+		}
+		id := uint64(1 + r.Intn(1<<20))
+		if r.Pct(40) {
+			id = r.U64()&0xffffffff | 1
+		}
+		wvs = append(wvs, wv{id, dl})
+	}
+	for _, w := range wvs {
+		id, dl := w.id, w.dl
+		data := payload(r, dl)
+		send := func() error {
+			return guard(func() error {
+				return network.VerifTransferWriteSend(p.a, int(id), buffer.NewIoBufferBytes(append([]byte{}, data...)))
+			})
+		}
+		var wire []byte
+		var wg sync.WaitGroup
+		wg.Add(1)
+		go func(b *net.UnixConn) { defer wg.Done(); wire, _ = readN(b, 8+dl) }(p.b)
+		serr := send()
+		wg.Wait()
+		var id2 int
+		var d2 []byte
+		var rerr error
+		var id3 uint64
+		if serr == nil {
+			wg.Add(1)
+			go func(b *net.UnixConn) {
+				defer wg.Done()
+				rerr = guard(func() error {
+					var err error
+					id2, d2, err = network.VerifTransferWriteRecv(b)
+					return err
+				})
+				if rerr != nil {
+					b.Close()
+				}
+			}(p.b)
+			serr2 := send()
+			wg.Wait()
+			if rerr == nil && serr2 != nil {
+				serr = serr2
+			}
+			if rerr == nil && serr == nil {
+				// the id message (new process -> old process)
+				rerr = guard(func() error {
+					if err := network.VerifTransferSendID(p.a, id); err != nil {
+						return err
+					}
+					id3 = network.VerifTransferRecvID(p.b)
+					return nil
+				})
+			}
+		}
+		run.Count(fmt.Sprintf("wmsg|%d|%d", id, dl), true, "codec-write-msg")
+		rep := map[string]interface{}{"part": "write-msg", "connection_id": id, "data_len": dl, "id_back": id2, "id_msg_back": id3, "send_error": fmt.Sprint(serr), "recv_error": fmt.Sprint(rerr)}
+		switch {
+		case serr != nil:
+			run.Fail("transfer:write-message-send-failed", fmt.Sprintf("forwarding %d B for connection id %d failed on the sending side: %v", dl, id, serr), rep)
+			p.reset()
+		case rerr != nil:
+			run.Fail("transfer:write-message-rejected", fmt.Sprintf("a forwarded write of %d B for connection id %d was refused by the real receiver: %v", dl, id, rerr), rep)
+			p.reset()
+		case string(d2) != string(data) || (id < 1<<32 && (uint64(id2) != id || id3 != id)):
+			run.Fail("transfer:write-message-roundtrip-differs", fmt.Sprintf("id %d / %d B came back as id %d (id message %d) / %d B", id, dl, id2, id3, len(d2)), rep)
+			p.reset()
+		case uint64(id2) != id3:
+			run.Fail("transfer:id-encodings-disagree", "the id in the write head and the id message decode differently", rep)
+		}
+		wm.Add(fmt.Sprintf("(%s, %s, %s, %s, %s)", CoqN(id), CoqBytes(data), CoqBytes(wire), CoqN(uint64(id2)), CoqBytes(d2)), rep)
+	}
+	wm.Close()
 }
